@@ -1,3 +1,8 @@
-(* C12/Proofs.v -- lemmas (placeholder, filled in below) *)
-From Coq Require Import Reals Lra List Bool.
-From Verif Require Import Base.Num Base.Vec C12.Model.
+(* C12/Proofs.v -- collects the lemma files of C12 (split to keep each file fast):
+     Space.v            abstract inner-product spaces, adjoints, sub-gradients, proximal points
+     ProofsLin.v        Landweber, Kaczmarz, CG, CGN, power method
+     ProofsDescent.v    backtracking line search, steepest descent
+     ProofsNonsmooth.v  PDHG, ADMM, (accelerated) proximal gradient, forward-backward PD
+     Inst1.v            the instance R (non-vacuity of every hypothesis)
+     Refuted.v          forward_backward_pd as coded does not converge *)
+From Verif Require Export C12.Space C12.ProofsLin C12.ProofsDescent C12.ProofsNonsmooth C12.Inst1 C12.Refuted.
